@@ -85,7 +85,39 @@ def _pair_job(state, job):
     try:
         ev = w.ev()
         try:
-            ref = value(w, ev, _td(w, ev, sp.build(w), other.build(w), (axa, axb)))
+            # R04.4: the contraction hands its result to the label resolution exactly once, after the block contraction
+            from engine import minieval
+
+            def logged(run):
+                minieval.CALL_LOG = log = []
+                try:
+                    r_ = run()
+                finally:
+                    minieval.CALL_LOG = None
+                res_ = [args for fq, args in log if fq.endswith(":resolve_combined_oddpos")]
+                blk_ = [i for i, (fq, _) in enumerate(log) if fq.endswith(":tensordot_abelian") or fq.endswith("AbelianArray.__matmul__")]
+                pos_ = [i for i, (fq, _) in enumerate(log) if fq.endswith(":resolve_combined_oddpos")]
+                return r_, res_, (blk_ and pos_ and pos_[0] > blk_[0])
+
+            def judge(what, r_, res_, after):
+                wit.tick("R04.4")
+                if len(res_) != 1:
+                    wit.bad("R04.4|count", f"{where}: {what} calls the label resolution {len(res_)} time(s) (exactly once expected)")
+                elif not after:
+                    wit.bad("R04.4|order", f"{where}: {what} resolves the labels before the blocks are contracted")
+                elif isinstance(r_, Obj) and len(res_[0]) == 3 and res_[0][2] is not r_:
+                    wit.bad("R04.4|object", f"{where}: {what} resolves the labels on another object than the one it returns")
+
+            r0, res0, after0 = logged(lambda: _td(w, ev, sp.build(w), other.build(w), (axa, axb)))
+            judge("tensordot", r0, res0, after0)
+            if fa + fb == 0:
+                judge("tensordot (scalar result)", *logged(lambda: _td(w, ev, sp.build(w), other.build(w), (axa, axb), scalar=True)))
+            if ncon == 1 and na <= 2 and nb <= 2:
+                try:
+                    judge("a @ b", *logged(lambda: w.meth(ev, sp.build(w), "__matmul__", other.build(w))))
+                except (Raised,) + PYERR + (LayoutError,):
+                    pass
+            ref = value(w, ev, r0)
         except Diverges:
             wit.bad("R04.5|does not terminate", f"{where}: the contraction does not terminate (loop bound exceeded)")
             return wit.w, wit.n
@@ -246,6 +278,8 @@ def check_routes(prog, ctx):
     td = prog.func("symmray.fermionic_core:tensordot_fermionic")
     rs = prog.func("symmray.fermionic_core:resolve_combined_oddpos")
     texts = {
+        "R04.4": (td, "every fermionic contraction (array and scalar results, tensordot and @) hands the object it returns to "
+                      "resolve_combined_oddpos exactly once, after the block contraction"),
         "R04.5": (td, "tensordot(b, a) followed by the fermionic transpose of the result equals tensordot(a, b): blocks, signs, labels"),
         "R04.6": (td, "the listing order of the contracted axis pairs and fermionic transposes applied to an operand beforehand do not change the result"),
         "R04.7": (rs, "three-tensor chains and triangles: (A.B).C equals A.(B.C) in blocks, signs and remaining labels, for every assignment of "
